@@ -706,6 +706,17 @@ fn main() {
         "digest" => cmd_digest(&a),
         "shard" => cmd_shard(&a),
         "gencase" => cmd_gencase(&a),
+        "zerox" => {
+            // constants for c17/cfgprobe: per NIST KEM a recipient ikm and the valid encapsulated key
+            // whose DH with that recipient has x-coordinate 0
+            for kem in [suites::KemId::P256, suites::KemId::P384, suites::KemId::P521] {
+                let ikm = b"cfgprobe zero-x recipient";
+                let (sk, _, _) = refhpke::derive_keypair(kem, ikm);
+                let enc = refhpke::zero_x_partner(kem, &sk).expect("partner");
+                println!("{:?} {}", kem, util::hex(&enc));
+            }
+            0
+        }
         "c18ref" => cmd_c18ref(&a),
         "selftest" => {
             model_selftest();
